@@ -32,6 +32,14 @@ Import ListNotations.
 Local Open Scope N_scope.
 Local Notation canon_ip6 := Spec.Recompose.canon_ip6.
 
+(* ---- 0. the reference made from a parsed source never holds a lone empty segment (host-less, the
+        path exactly one empty segment): uriRemoveBaseUriMm calls uriFixEmptyTrailSegment in domain-root
+        mode since the repair of the witness "s://h/" against "s://h/a" (Props/C11text.v) ---------- *)
+Theorem C10_parsed_reference_no_lone_empty : forall m s S base, parse s = POk S ->
+  lone_empty_hostless (snd (remove_base m S base)) = false.
+Proof. exact remove_base_no_lone_empty_parsed. Qed.
+Print Assumptions C10_parsed_reference_no_lone_empty.
+
 (* ---- 1. what the parser guarantees of the hypotheses of Props/C10.v ---------------------------- *)
 Theorem C10_parsed_walk_ok : forall s b S B, parse s = POk S -> parse b = POk B ->
   walk_ok S B = walk_shape S B.
@@ -220,3 +228,10 @@ Proof.
   do 4 eexists. split; [vm_compute; reflexivity|]. split; [vm_compute; reflexivity|].
   split; [vm_compute; reflexivity|]. split; [vm_compute; reflexivity|]. repeat split.
 Qed.
+
+(* domain-root mode: "s://h/" against "s://h/a" is "/", the absolute path without segments *)
+Example C10_parsed_domain_root_slash :
+  let r := snd (remove_base true (uri_of "s://h/") (uri_of "s://h/a")) in
+  to_text r = txt "/" /\ absolutePath r = true /\ pathSegs r = [] /\ lone_empty_hostless r = false
+  /\ to_text (snd (add_base false r (uri_of "s://h/a"))) = txt "s://h/".
+Proof. vm_compute. repeat split; reflexivity. Qed.
